@@ -26,6 +26,8 @@ CLAIMED = {
             "Decides that every cell write in a trailing function is paired with a trail call of the matching kind, that the trail conditions compare with hb/b strictly, that every trail entry tag pushed is undone by an arm restoring the matching self-reference in reverse order, that bb_b_put distinguishes its three states, who may call unwind_trail, and that choice points are saved/restored field for field. Which goals create choice points is not decided."),
     "C12": ("goal-order rules over the catch/throw clauses of builtins.pl (plread), effect summaries of the Rust exception primitives (typed HIR, MIR order), who-may-build-a-thrown-error over every Err(..) of type Result<_, MachineStub>",
             "Decides the control skeleton of catch/3 and throw/1 and the form of builtin errors: throw/1 stores the thrown term (an instantiation error for an unbound ball) before it unwinds; catch/3 captures the outer block before installing its own; the recovery clause restores the outer block, fetches a copy of the ball, parks it and hands it to handle_ball/3, which unifies ball and catcher in its head, commits and calls the recovery, or restores the ball and unwinds again; set_ball stores a copy, unwind_stack cuts to the innermost block and fails, the block and ball-stack primitives do what those clauses need; every error a builtin raises (266 Err(stub) sites, 65 Err(generator) sites, 371 direct throws) is built by error_form, i.e. is error(Formal, Context). setup_call_cleanup/3's exactly-once clause and the undoing of bindings (C11) are not decided here."),
+    "C25": ("goal-order and variable-plumbing rules over the findall/forall clauses (plread) + effect summaries of the lifted-heap primitives (typed HIR)",
+            "Decides the collection protocol under every all-solutions predicate: findall/3 and findall/4 remember the length of the solution store before iterating, iterate under catch/3 and on an error cut the store back to that length and re-throw; the iteration predicate calls the goal, copies the template to the store after each solution and fails back; its last clause hands over what was collected since the remembered length; forall/2 is \\+ (G, \\+ T); '$copy_to_lh' stores a copy, '$get_lh_from_offset[_diff]' copies back and cuts the store to the offset given. bagof/3, setof/3 (witness grouping), countall/2 and call_nth/2 are not decided."),
     "C03": ("table agreement between the two evaluators over typed HIR (custom rustc driver)",
             "Decides completely the clause 'both evaluators are the same function of their operands': per evaluable functor the compiled instruction handler and the run-time tree walker reach the same implementation functions with the same constant arguments; key sets coincide; operand fetch is shared. Correctness of the shared implementations is C01/C02."),
     "C04": ("oracle-table and sibling-agreement rules over typed HIR (custom rustc driver)",
@@ -80,7 +82,6 @@ NA = {
     "C22": "mode-by-mode solution sequences of Prolog-defined enumerators (atom_length, sub_atom, ...): run-time values",
     "C23": "value-level results of term construction/inspection builtins",
     "C24": "termination and pointer-reversal restoration on cyclic terms depend on graph shape; no sound termination analysis in reach",
-    "C25": "all-solutions predicates are Prolog-defined over the lifted heap; answer-collection semantics are run-time values",
     "C26": "order-insensitivity of dif/freeze/when quantifies over histories of constraint posts in Prolog libraries",
     "C27": "clp(Z) propagator semantics (8k lines of Prolog): soundness/completeness is value-level",
     "C29": "toplevel output text of toplevel.pl for all queries: run-time strings",
